@@ -3,7 +3,7 @@
 use crate::checks::*;
 use crate::exec::*;
 use crate::genr::*;
-use crate::refcodec::CPacket;
+use crate::refcodec::{CPacket, Prop};
 use crate::rng::Rng;
 use crate::runner::*;
 use crate::steps::*;
@@ -201,7 +201,12 @@ impl Driver for CancelTwin {
                     if self.poll_before_reissue && v.has_handle {
                         self.poll_before_reissue = false;
                         self.polled_before_reissue = true;
-                        return Some(Step::Poll { max_wait: 0, cancel_at: None });
+                        // (or, one time in three, issues another request first: it uses the
+                        // transmit arena, where a parked DISCONNECT with properties lives)
+                        return Some(match v.log.ops.len() % 3 {
+                            0 => pubq(1, "c13/between", 0xBE, 24),
+                            _ => Step::Poll { max_wait: 0, cancel_at: None },
+                        });
                     }
                     self.stage = 3;
                     self.drain_left = 60;
@@ -304,7 +309,9 @@ fn final_request(r: &mut Rng, g: &mut Gen) -> Step {
         5 => Step::Unsubscribe(g.unsub_spec()),
         6 => Step::Poll { max_wait: 0, cancel_at: None },
         7 => r.pick(&[Step::Drive { cancel_at: None }, Step::Recv { max_wait: 0, cancel_at: None }]).clone(),
-        _ => Step::Disconnect(DiscSpec { reason: *r.pick(&[None, Some(4u8)]), props: None, cancel_at: None }),
+        // (a DISCONNECT with properties does not fit the inline control storage: it is parked in
+        // the free part of the transmit arena)
+        _ => Step::Disconnect(DiscSpec { reason: *r.pick(&[None, Some(4u8)]), props: r.pick(&[None, None, Some(vec![Prop::ReasonString("bye, see you later".into())]), Some(vec![Prop::UserProperty("why".into(), "maintenance".into())])]).clone(), cancel_at: None }),
     }
 }
 
@@ -747,6 +754,50 @@ fn c15_profile(r: &mut Rng) -> Profile {
 #[derive(PartialEq, Debug)]
 struct Results(Vec<(&'static str, Outcome)>);
 
+/// C15, outbound packets longer than 64 KiB under write patterns that pass through every
+/// "bytes still to go" value, in particular exact multiples of 65536.
+fn big_outbound(rng: &mut Rng, seed: u64, verbose: bool) -> CaseOut {
+    let mut out = CaseOut::default();
+    let cfg = CaseCfg { rx: 128, tx: 300_000, keepalive: 0, ..CaseCfg::default() };
+    let len = *rng.pick(&[65_600usize, 66_010, 70_000, 131_200, 196_700]);
+    let qos = 1 + rng.below(2) as u8;
+    let request = Step::Publish(PubSpec { topic: "big".into(), payload: PayloadSpec::Fill { len, tag: 0xB16, ascii: false }, qos, retain: false, props: vec![], correlate: None, cancel_at: None });
+    let second = pub1("after", 5, 3);
+    let total = len + 2 + 3 + 2 + 1 + 4; // roughly: the first write of the odd pattern leaves a multiple of 65536
+    let odd = (total % 65_536).max(1);
+    let mut reference: Option<Vec<u8>> = None;
+    for ch in [Chunk::All, Chunk::Fixed(odd), Chunk::Fixed(odd + 1), Chunk::One, Chunk::Fixed(65_536), Chunk::AllButOne] {
+        let steps = vec![
+            Step::Connect(ConnectSpec { policy: IoPolicy { write: ch, ..IoPolicy::default() }, faults: vec![], connack: ConnackSpec::ok(SpMode::Force(false)), broker: BrokerPolicy { acks: AckMode::Hold, ping: AckMode::Immediate, fail_pct: 0, longform_pct: 0 }, cancel_at: None }),
+            request.clone(),
+            second.clone(),
+            poll0(),
+        ];
+        let (log, world) = run_script(&cfg, steps, seed);
+        let w = world.borrow();
+        out.evaluations += 1;
+        out.count("twins_compared", 1);
+        out.count("outbound_packets_above_64k", 1);
+        out.nontrivial.push(hash_of(&(len, qos, format!("{:?}", ch))));
+        let bytes = w.conns[0].out.bytes.clone();
+        match &reference {
+            None => reference = Some(bytes),
+            Some(rb) => {
+                if *rb != bytes || w.conns[0].out.error.is_some() {
+                    let at = rb.iter().zip(&bytes).position(|(a, b)| a != b).unwrap_or(rb.len().min(bytes.len()));
+                    out.violations.push(viol("C15", "C15/large-packet/stream-depends-on-write-pieces", format!("QoS {} publish of {} payload bytes followed by a small one: with writes accepted {:?} the outbound stream differs from whole-buffer writes at byte {} ({} vs {} bytes, results {:?})", qos, len, ch, at, bytes.len(), rb.len(), log.ops.iter().map(|o| format!("{}:{:?}", o.kind, o.outcome)).collect::<Vec<_>>())));
+                    if verbose {
+                        println!("(history of {} events not printed)", w.events.len());
+                    }
+                    break;
+                }
+            }
+        }
+    }
+    out.key(format!("large-outbound/{}", len / 65_536));
+    out
+}
+
 /// C15, the connection ends when the transport has accepted only the first k bytes of a request's
 /// packet (the caller gives up there and drops the handle); the same Session resumes on a new
 /// transport. What the new connection carries must not depend on k.
@@ -1127,13 +1178,13 @@ impl Check for C15 {
         v
     }
     fn workloads(&self) -> Vec<Workload> {
-        vec![Workload { name: "fragment-twin", quick: 900, thorough: 600_000 }, Workload { name: "exhaustive-chunkings", quick: 60, thorough: 6000 }, Workload { name: "stalls-under-keepalive", quick: 400, thorough: 600_000 }, Workload { name: "connection-cut-inside-a-packet", quick: 150, thorough: 30_000 }, Workload { name: "send-buffer-full-inside-a-packet", quick: 300, thorough: 60_000 }, Workload { name: "connection-ends-inside-an-outbound-packet", quick: 200, thorough: 40_000 }]
+        vec![Workload { name: "fragment-twin", quick: 900, thorough: 600_000 }, Workload { name: "exhaustive-chunkings", quick: 60, thorough: 6000 }, Workload { name: "stalls-under-keepalive", quick: 400, thorough: 600_000 }, Workload { name: "connection-cut-inside-a-packet", quick: 150, thorough: 30_000 }, Workload { name: "send-buffer-full-inside-a-packet", quick: 300, thorough: 60_000 }, Workload { name: "connection-ends-inside-an-outbound-packet", quick: 200, thorough: 40_000 }, Workload { name: "outbound-packets-above-64k", quick: 12, thorough: 600 }]
     }
     fn min_nontrivial(&self, tier: Tier) -> usize {
         if tier == Tier::Quick { 300 } else { 3000 }
     }
     fn required_counters(&self) -> Vec<&'static str> {
-        vec!["twins_compared", "chunkings_enumerated_exhaustively", "variants_with_split_packets", "stalls_inside_a_packet", "calls_repeated_after_a_stall", "keepalive_stall_variants", "slow_partial_writes", "connections_cut_inside_a_packet", "requests_given_up_inside_their_packet", "connections_ended_inside_an_outbound_packet"]
+        vec!["twins_compared", "chunkings_enumerated_exhaustively", "variants_with_split_packets", "stalls_inside_a_packet", "calls_repeated_after_a_stall", "keepalive_stall_variants", "slow_partial_writes", "connections_cut_inside_a_packet", "requests_given_up_inside_their_packet", "connections_ended_inside_an_outbound_packet", "outbound_packets_above_64k"]
     }
     fn exhaustive(&self) -> bool {
         true
@@ -1152,6 +1203,9 @@ impl Check for C15 {
         }
         if workload == 5 {
             return ends_inside_outbound(&mut rng, seed, verbose);
+        }
+        if workload == 6 {
+            return big_outbound(&mut rng, seed, verbose);
         }
         let profile = c15_profile(&mut rng);
         let cfg = {
